@@ -210,6 +210,8 @@ impl WalManager {
 
         self.total_record_count.fetch_add(1, Ordering::Relaxed);
         self.records_since_sync.fetch_add(1, Ordering::Relaxed);
+        #[cfg(grafeo_verif)]
+        grafeo_common::verif::event("wal.record", log_file.sequence, log_file.size);
 
         // Check if we need to rotate
         let needs_rotation = log_file.size >= self.config.max_log_size;
